@@ -40,3 +40,19 @@ pub mod determinism {
         x as *const u8 as usize
     }
 }
+
+pub mod idcmp {
+    #[derive(Clone, PartialEq)]
+    pub struct Identifier {
+        pub name: String,
+        pub id: usize,
+    }
+    pub struct Clause {
+        pub xtor: Identifier,
+        pub body: i64,
+    }
+    /// R-IDCMP: selects by the id of a name identifier
+    pub fn select(clauses: &[Clause], xtor: &Identifier) -> Option<i64> {
+        clauses.iter().find(|clause| clause.xtor.id == xtor.id).map(|c| c.body)
+    }
+}
